@@ -162,10 +162,26 @@ def gen_uparea(rng, ds, shape):
     u = rng.random()
     if u < 0.5:
         return "default", None, None
-    if u < 0.8:
+    if u < 0.65:
         w = [rng.randint(1, 9) for _ in range(n)]
         acc = accumulate(ds, w)
         dt = rng.choice([np.int32, np.float64])
+        return "user-int", np.array(acc, dtype=dt).reshape(shape), acc
+    if u < 0.8:
+        # large areas (e.g. m2): values far above 2^24 whose downstream increments are below float32
+        # resolution - exact in float64 / int64, so any narrowing of the accumulator shows
+        # a genuine accumulation (a clipped raster: one or two headwater cells carry a large inflow from
+        # outside the domain, local areas are small)
+        w = [50 * rng.randint(1, 9) for _ in range(n)]
+        has_up = [False] * n
+        for i, d in enumerate(ds):
+            if d != n and d != i:
+                has_up[d] = True
+        heads = [i for i in range(n) if ds[i] != n and not has_up[i]]
+        for i in rng.sample(heads, min(len(heads), rng.randint(1, 2))):
+            w[i] += 20_000_000_000
+        acc = accumulate(ds, w)
+        dt = rng.choice([np.int64, np.float64])
         return "user-int", np.array(acc, dtype=dt).reshape(shape), acc
     w = [rng.randint(1, 12) for _ in range(n)]  # quarter units
     acc = accumulate(ds, w)
